@@ -503,7 +503,7 @@ def unit_stack(prop):
 
 UNITS = {
     "C15": [unit_deltas("C15"), unit_stack("C15"), unit_deltas_init("C15"), _lazy("contracts.accessors", "unit_ctors", "C15")],
-    "C07": [unit_supports("C07", "tri"), unit_supports("C07", "fbank"), _lazy("contracts.filters_gabor", "unit_gamma_support", "C07"),
+    "C07": [unit_supports("C07", "tri"), unit_supports("C07", "fbank"), _lazy("contracts.filters_gabor", "unit_gamma_support", "C07"), _lazy("contracts.filters_gamma", "unit_gamma_loop", "C07"),
             _lazy("contracts.purity", "unit_purity", "C07"), _lazy("contracts.accessors", "unit_accessors", "C07")],
     "C03": [unit_si("C03", w) for w in ("chunk", "handle_skip", "preamble", "finalize", "full", "geometry", "supports")] + [_lazy("contracts.si_stream", "unit_filters", "C03")] + [unit_si_frame("C03", w) for w in ("fill", "frame", "dft", "idft")] + [_lazy("contracts.accessors", "unit_accessors", "C03")],
     "C13": [_lazy("contracts.shorten", "unit_bit_reader", "C13"), _lazy("contracts.shorten_block", "unit_block", "C13"),
@@ -524,7 +524,7 @@ UNITS = {
             _lazy("contracts.sphere_header", "unit_parse", "C12"), unit_read_signal("C12", "dispatch"),
             _lazy("contracts.sphere_header", "unit_sphere_read_signal", "C12")],
     "C20": [unit_circshift("C20"), _lazy("contracts.util_misc", "unit_angular", "C20"), unit_windows("C20"), _lazy("contracts.purity", "unit_purity", "C20"), _lazy("contracts.windows", "unit_gamma", "C20"), _lazy("contracts.util_misc", "unit_gauss_quant", "C20"), _lazy("contracts.accessors", "unit_ctors", "C20")],
-    "C05": [unit_tri("C05", "init"), unit_tri("C05", "truncated"), unit_fbank("C05", "init"), unit_fbank("C05", "truncated"), unit_gabor("C05"), unit_gamma_prefix("C05"), _lazy("contracts.purity", "unit_purity", "C05"), _lazy("contracts.accessors", "unit_accessors", "C05")],
+    "C05": [unit_tri("C05", "init"), unit_tri("C05", "truncated"), unit_fbank("C05", "init"), unit_fbank("C05", "truncated"), unit_gabor("C05"), unit_gamma_prefix("C05"), _lazy("contracts.filters_gamma", "unit_gamma_loop", "C05"), _lazy("contracts.purity", "unit_purity", "C05"), _lazy("contracts.accessors", "unit_accessors", "C05")],
     "C06": [unit_tri("C06", "frequency"), unit_fbank("C06", "frequency"), _lazy("contracts.filters_gabor", "unit_resp_length", "C06"), _lazy("contracts.filters_gabor", "unit_trunc_shape", "C06"), _lazy("contracts.filters_gabor", "unit_gamma_trunc_shape", "C06"), unit_tri("C06", "truncated"), unit_tri("C06", "init"), unit_fbank("C06", "truncated"), unit_fbank("C06", "init"), _lazy("contracts.purity", "unit_purity", "C06")],
     "C14": [unit_torch_stft("C14"), unit_torch_wrappers("C14"), _lazy("contracts.torch_wrappers", "unit_from_stft", "C14"), _lazy("contracts.torch_wrappers", "unit_stft_module", "C14"), _lazy("contracts.torch_wrappers", "unit_stft_module_init", "C14"), _lazy("contracts.accessors", "unit_torch_small", "C14")],
     "C09": [unit_torch_stft("C09")] + [_lazy_list("contracts.cli", "units", "C09", k) for k in range(8)] + [_lazy("contracts.cli", "unit_config_type", "C09")],
